@@ -76,6 +76,16 @@ theorem handout_checks {cfg : Cfg} (hg : cfg.handoutChecksDead = true) {s s' : S
             · exact old h'
       · cases h
     · cases h
+  | mk j =>
+    simp only [step] at h
+    split at h
+    · split at h
+      · cases h
+        rcases setPc_using hy hp with ⟨_, h2⟩ | h'
+        · cases h2
+        · exact old h'
+      · cases h
+    · cases h
   | check j =>
     simp only [step] at h
     split at h
